@@ -60,6 +60,12 @@ def gen_task(rng, lay, i, focus, knobs):
     gpr  = 0
     if lay['gpn'] and rng.random() < 0.45:
         gpr = rng.choice([0.25, 0.5, 0.5, 1, 1, 2])
+        if gpr == 2 and ranks == 3 and focus != 'jsrun' and \
+                not lay.get('jsrun'):
+            # more than one GPU cannot be shared - a request which cannot be
+            # honoured and must be rejected.  Derived from the values drawn
+            # above (no extra draw: all other scenarios stay what they were)
+            gpr = 1.5
     d = {'executable': '/bin/true', 'ranks': ranks, 'cores_per_rank': cpr,
          'gpus_per_rank': gpr}
     if lay['lfs'] and rng.random() < 0.4:
@@ -267,6 +273,8 @@ def ranks_per_node_cap(d, lay):
     c = max(d.get('cores_per_rank') or 1, 1)
     g = d.get('gpus_per_rank') or 0
     cap = ucpn // c
+    if g > 1 and g != int(g):
+        return 0            # GPUs above one cannot be shared: never fits
     if g >= 1:
         cap = min(cap, int(ugpn // g))
     elif g > 0:
@@ -630,6 +638,9 @@ def make_check(prop, focuses, knobs, nontrivial):
             for t in sc['tasks']:
                 t['preplaced'] = False
                 d = t['descr']
+                for k in ('gpus_per_rank', 'gpu_processes'):
+                    if d.get(k) == 1.5:
+                        d[k] = 2      # as drawn (resource sets: not judged)
                 # resource sets with several ranks (shared GPUs), with and
                 # without a ranks-per-node limit
                 if sc['layout']['gpn'] and d.get('ranks', 1) > 1 and \
@@ -1006,7 +1017,7 @@ def oracles(sim, sc, st):
                   {'want': c, 'got': s['cores']}, seq)
             if g >= 1:
                 gi = [x for x, _ in s['gpus']]
-                if len(gi) != int(g) or len(set(gi)) != len(gi):
+                if len(gi) != g or len(set(gi)) != len(gi):
                     v(sim, 'C02', 'gpus_exact', 'sched', uid,
                       {'want': g, 'got': s['gpus']}, seq)
             elif g > 0 and sc.get('jsrun'):
